@@ -108,6 +108,19 @@ func c17Judge(k c17Case) *vlib.Failure {
 			req.Hdr = hdr
 		}
 		m.Wrap(http.HandlerFunc(func(http.ResponseWriter, *http.Request) {})).ServeHTTP(vlib.NewRec(), req.HTTP())
+	case "traffic":
+		cfg := k.Cfg.Config()
+		m, err := cors.NewMiddleware(cfg)
+		if err != nil {
+			return vlib.Failf("configuration of the C17 alphabet rejected: %v", err)
+		}
+		m.SetDebug(k.Debug)
+		h := m.Wrap(http.HandlerFunc(func(http.ResponseWriter, *http.Request) {}))
+		for i, r := range trafficSequence(300, "https://t%d.a.b", "https://t%d.xa.b") {
+			if f := vlib.Guard(func() *vlib.Failure { h.ServeHTTP(vlib.NewRec(), r.HTTP()); return nil }); f != nil {
+				return vlib.Failf("request #%d of the traffic sequence (%s): %s", i+1, r, f.Detail)
+			}
+		}
 	case "history":
 		if f := smEnsure(); f != nil {
 			return f
@@ -370,6 +383,20 @@ func checkC17(c *vlib.Ctx) (string, string) {
 			tryReq(vlib.Req{Method: "GET", Hdr: h}, nil)
 		}
 	})
+	// long traffic: 300 distinct allowed origins and 300 near misses coming back at several distances, on one middleware
+	// per configuration kind and debug mode (fixed-size memos and rings overflow only after they have filled up)
+	for _, l := range []CfgLit{
+		{Origins: []string{"https://*.a.b", "https://a.b"}, Methods: []string{"PUT"}, RequestHeaders: []string{"X-A"}, TolPSL: true},
+		{Origins: []string{"https://*.a.b:*", "http://*.a.b"}, Credentialed: true, Methods: []string{"*"}, RequestHeaders: []string{"*"}, ResponseHeaders: []string{"X-R"}, TolPSL: true, TolInsecure: true},
+		{Origins: []string{"*"}, PNA: false, Methods: []string{"PUT"}, RequestHeaders: []string{"*", "Authorization"}},
+	} {
+		for _, dbg := range []bool{false, true} {
+			k := c17Case{Kind: "traffic", Cfg: l, Debug: dbg}
+			c.States.Add(1)
+			c.Transitions.Add(int64(len(trafficSequence(300, "https://t%d.a.b", "https://t%d.xa.b"))))
+			ck.Try(k)
+		}
+	}
 	// multiplicities and extreme sizes
 	for _, m := range []string{"GET", "OPTIONS", "", "options", "\x00"} {
 		for _, hn := range hdrNames {
